@@ -66,6 +66,9 @@ def tasks(tier):
         shapes = [[1], [2], [3], [2, 2], [3, 2], [2, 3], [1, 2, 2], [2, 2, 2], [3, 3], [2, 2, 3]]
     for sh in shapes:
         ts.append({'mode': 'paths', 'arcs': sh})
+    # every position offers the same arcs (epsilon and the same symbols): different arc combinations spell the same string
+    for sh in ([2, 2], [2, 2, 2]) + (([3, 2],) if tier != 'quick' else ()):
+        ts.append({'mode': 'paths', 'arcs': list(sh), 'keys': 'same'})
     for lm in (False, True, 'mixed'):
         ts.append({'mode': 'boh', 'lens': [2, 2], 'lm': lm})
         ts.append({'mode': 'boh', 'lens': [1, 2], 'lm': lm})
@@ -286,7 +289,7 @@ def _run_paths(H, mod, task):
     cn0 = []
     ws = []
     for i, k in enumerate(arcs):
-        keys = [None] + list(alphabet[:k - 1]) if i % 2 == 1 else list(alphabet[:k])
+        keys = [None] + list(alphabet[:k - 1]) if (i % 2 == 1 or task.get('keys') == 'same') else list(alphabet[:k])
         pos = {}
         for j, key in enumerate(keys[:k]):
             w = S(z3.Real('p%d_%d' % (i, j)))
